@@ -197,6 +197,9 @@ class ListenerModel:
                 val["def_top_isdoc"] = not v
             elif a[0] == "in" and a[2] == self.consumed:
                 val["consumed"] = v
+            elif a[0] == "in" and a[2][0] == "attr" and a[2][1] == SELF and contains(a[1], ("sym", "ctx")):
+                # 'already handled' decided by a key derived from the context (line number, text, ...), not by the context itself
+                val["handled_by_key"] = f"{show(a[1])[:40]} in self.{a[2][2]}={v}"
             elif a[0] == "lencmp":
                 val.setdefault("arity", []).append(f"{'' if v else 'not '}len({_short(a[1])}){a[2]}{a[3]}")
             elif a[0] == "nonempty":
